@@ -67,6 +67,14 @@ def check(tier, seed, replay=None):
                 for _ in range(rnd.choice([0, 0, 1, 2, 3])):
                     c = rnd.choice(['"', ',', "'", '\\', 'x', ';', ' '])
                     esc.append((c, rnd.choice(["\\" + c, c + c, "&q;", "", "\\\\", "<" + c + ">"])))
+                if rnd.random() < 0.35:
+                    # two sequences of which one's replacement holds the other's character (each character of the data is escaped once,
+                    # the replacements are not escaped again), in either order
+                    c1 = rnd.choice([',', ';', 'x', "'", ' '])
+                    pair = [(c1, "\\" + c1), ("\\", "\\\\")] if rnd.random() < 0.5 else [(c1, "<" + c1 + ">"), ("<", "&lt;")]
+                    if rnd.random() < 0.5:
+                        pair.reverse()
+                    esc = [e for e in esc if e[0] not in (pair[0][0], pair[1][0])] + pair
                 # separators must not occur in fields: forbid their characters in the data, and keep keywords / escapes free of them
                 forbid = "".join(set(sep + rowsep))
                 if any(ch in forbid for ch in pre + post + nullk + truek + falsek + (missing or "") + "".join(rp for _, rp in esc)):
@@ -94,6 +102,13 @@ def check(tier, seed, replay=None):
                 rows_in.append(("obj", [(PL.cps(FIELDS[k]), v) for k, v in enumerate(vals) if v is not None]))
                 rows.append([enc(v) if v is not None else {"t": "nothing"} for v in vals])
             sel = ["--select=.%s =%s" % (FIELDS[k], names[k]) for k in range(n)]
+            # a selection without `=name` is called by its own text, however long
+            for k in range(n):
+                if rnd.random() < 0.15:
+                    txt = rnd.choice([".%s", "(default .%s .no_such_member_with_a_long_name)", "(? true .%s \"never\")"]) % FIELDS[k]
+                    if not any(ch in forbid for ch in txt) and txt not in names:
+                        sel[k] = "--select=" + txt
+                        names[k] = txt
             recipes.append({"mode": mode, "names": [PL.cps(x) for x in names], "rows": rows, "opts": opts, "rowsep": PL.cps(rowsep),
                             "argv": argv + sel, "stdin": hexs(PL.input_bytes(rows_in))})
     cases = [{"id": i, "argv": rc["argv"], "stdin": rc["stdin"]} for i, rc in enumerate(recipes)]
